@@ -62,6 +62,10 @@ pub enum Kind {
     ValidData { len: usize },
     /// Well-formed cumulative ACK of everything received on the own connection.
     ValidAck,
+    /// `in_order` well-formed in-sequence data packets followed at the same instant by one data
+    /// packet `ahead` sequence numbers beyond the next expected one (aimed at the far edge of
+    /// the target's reassembly window while in-order data is still parked in front of it).
+    EdgeData { in_order: usize, ahead: u16 },
 }
 
 #[derive(Clone, Debug, PartialEq, Serialize, Deserialize)]
@@ -203,7 +207,7 @@ pub fn spawn(ctx: &Ctx, script: &AttackScript) {
                     i += 1;
                     n_sent += 1;
                     // the attacker's own connection lives at its own address
-                    let own_traffic = matches!(step.kind, Kind::ValidData { .. } | Kind::ValidAck);
+                    let own_traffic = matches!(step.kind, Kind::ValidData { .. } | Kind::ValidAck | Kind::EdgeData { .. });
                     let src = match &step.src {
                         _ if own_traffic => me,
                         Src::Own => me,
@@ -246,6 +250,21 @@ pub fn spawn(ctx: &Ctx, script: &AttackScript) {
                             o.stream_off += payload.len() as u64;
                             o.seq_next = o.seq_next.wrapping_add(1);
                             p.payload = payload;
+                            p.serialize()
+                        }
+                        Kind::EdgeData { in_order, ahead } => {
+                            let Some(o) = own.as_mut() else { continue };
+                            for _ in 0..*in_order {
+                                let mut p = Pkt::new(codec::ST_DATA, o.id_send, o.seq_next, o.rcv_cum.unwrap_or(0), 1 << 20);
+                                let mut payload = vec![0u8; 16];
+                                prf_fill(o.key, o.stream_off, &mut payload);
+                                o.stream_off += payload.len() as u64;
+                                o.seq_next = o.seq_next.wrapping_add(1);
+                                p.payload = payload;
+                                ep.send_from(me, target, p.serialize());
+                            }
+                            let mut p = Pkt::new(codec::ST_DATA, o.id_send, o.seq_next.wrapping_add(*ahead), o.rcv_cum.unwrap_or(0), 1 << 20);
+                            p.payload = vec![0xEE; 16];
                             p.serialize()
                         }
                         Kind::ValidAck => {
